@@ -733,6 +733,50 @@ func ruleDivisibility(p *Prog, r *Report) {
 		fn     string
 		widths []int64
 	}{{"parseInt", []int64{1, 2, 4, 8}}, {"parseUint", []int64{1, 2, 4, 8}}, {"parseFloat", []int64{4, 8}}} {
+		if pf := p.Func("hsms", "(*parser)."+h.fn); pf == nil || paramIndex(pf, "byteSize") < 0 || paramIndex(pf, "length") < 0 {
+			// the per-type decoder has another name or signature: decide from the
+			// item decoder, evaluated on items with every payload length 0..4k+1
+			node := map[string]string{"parseInt": "IntNode", "parseUint": "UintNode", "parseFloat": "FloatNode"}[h.fn]
+			for _, k := range h.widths {
+				key := fmt.Sprintf("%s:hsms.%s:width=%d", rule, h.fn, k)
+				code := -1
+				for _, f := range e5Formats {
+					if f.Node == node && int64(f.ByteSz) == k {
+						code = f.Code
+					}
+				}
+				var bad, undec []string
+				for L := int64(0); L <= 4*k+1; L++ {
+					res, ok := decodeItemBytes(p, code, L, true)
+					if !ok || code < 0 || len(res.success) == 0 {
+						undec = append(undec, fmt.Sprintf("length %d: not evaluable", L))
+						continue
+					}
+					canSucceed := false
+					for _, sv := range res.success {
+						if !(sv.K == KBool && !sv.B) {
+							canSucceed = true
+						}
+					}
+					if canSucceed != (L%k == 0) {
+						bad = append(bad, fmt.Sprintf("a payload of %d bytes is %s (width %d)", L, map[bool]string{true: "accepted", false: "refused"}[canSucceed], k))
+					}
+				}
+				pos := ""
+				if tf := p.Func("hsms", "(*parser).parseMessageText"); tf != nil {
+					pos = p.Pos(tf.Pos())
+				}
+				switch {
+				case len(bad) > 0:
+					r.bad(rule, key, pos, strings.Join(firstN(bad, 4), "; "))
+				case len(undec) > 0:
+					r.unk(rule, key, pos, strings.Join(firstN(undec, 3), "; "))
+				default:
+					r.ok(rule, key, pos, fmt.Sprintf("evaluated from the item decoder for every payload length 0..%d: exactly the multiples of %d are accepted", 4*k+1, k))
+				}
+			}
+			continue
+		}
 		fn := p.MustFunc(r, "hsms", "(*parser)."+h.fn)
 		if fn == nil {
 			continue
